@@ -163,6 +163,29 @@ func (r *runner) arguments() {
 			[]string{"1", "2", "9", "10", "18", "19", "0", "01", "1.0", "-1", "", "+1", "100"}},
 		{"yang-version", []string{"yang-version %s;"}, func(s string) (bool, bool) { return s == "1", s != "1.1" }, []string{"1", "2", "1.0", "1.1", "", "01", "one"}},
 	}
+	// range / length arguments generated from their grammar: every part "b" and "b..b" over a
+	// boundary alphabet with valid and invalid members, alone and as the first or second of two parts
+	partsOver := func(bounds []string) []string {
+		var parts, out []string
+		for _, a := range bounds {
+			parts = append(parts, a)
+			for _, b := range bounds {
+				parts = append(parts, a+".."+b)
+			}
+		}
+		for _, p := range parts {
+			out = append(out, p, "1 | "+p, p+" | 7", "1..5|"+p, p+"|8..max")
+		}
+		return out
+	}
+	for i := range kinds {
+		switch kinds[i].name {
+		case "range":
+			kinds[i].strings = append(kinds[i].strings, partsOver([]string{"1", "-5", "1.5", "min", "max", "abc", "0x10", "+5", "010", "2.", ""})...)
+		case "length":
+			kinds[i].strings = append(kinds[i].strings, partsOver([]string{"1", "0", "-5", "1.5", "min", "max", "abc", "0x10", "+5", "010", ""})...)
+		}
+	}
 	for _, k := range kinds {
 		for ti, tmpl := range k.templates {
 			for _, s := range k.strings {
@@ -174,6 +197,15 @@ func (r *runner) arguments() {
 					// a descendant path on a top-level augment is left to the compiler
 					// (pinned by the repository's TestAugmentRelativePathFails)
 					settled = false
+				}
+				keySuffix := fmt.Sprintf("%q", s)
+				if (k.name == "range" || k.name == "length") && valid {
+					switch rfc6020.BoundaryOrder(s) {
+					case "misordered":
+						settled = false
+					case "degenerate":
+						keySuffix = "min..min-or-max..max" // one root cause, one key
+					}
 				}
 				if !settled {
 					r.c.Add("unspecified_skipped", 1)
@@ -194,7 +226,7 @@ func (r *runner) arguments() {
 				// the statement that carries the argument is the keyword right before %s
 				pre := strings.Fields(tmpl[:strings.Index(tmpl, "%s")])
 				needle := pre[len(pre)-1]
-				r.do(fmt.Sprintf("arg:%s:%d:%q", k.name, ti, s), rec{text, expect, needle + "|" + s, "arg:" + k.name + ":" + fmt.Sprintf("%q", s)}, true)
+				r.do(fmt.Sprintf("arg:%s:%d:%q", k.name, ti, s), rec{text, expect, needle + "|" + s, "arg:" + k.name + ":" + keySuffix}, true)
 			}
 		}
 	}
